@@ -275,11 +275,60 @@ def _names_known_to_rules():
     return _KNOWN_NAMES
 
 
+MAX_FORMULA_USES = 12
+_FORMULA_FUNCS = {'int', 'round', 'float', 'abs', 'min', 'max', 'len', 'bool', 'str', 'isinstance', 'divmod', 'pow'}
+
+
+def _pure_expr(e):
+    """an argument expression without calls or side effects: names, constants, attributes of names, arithmetic on those"""
+    ok = (ast.Name, ast.Constant, ast.Attribute, ast.BinOp, ast.UnaryOp, ast.operator, ast.unaryop, ast.expr_context)
+    return isinstance(e, (ast.BinOp, ast.UnaryOp)) and all(isinstance(n, ok) for n in ast.walk(e))
+
+
+def _is_predicate(e):
+    return isinstance(e, (ast.Compare, ast.BoolOp)) or (isinstance(e, ast.UnaryOp) and isinstance(e.op, ast.Not))
+
+
 class _IfCall:
-    """`if self._helper(...):` as an inlining site: the if statement and the synthetic `_r = self._helper(...)` before it"""
-    def __init__(self, ifnode, syn):
+    """`if self._helper(...):` as an inlining site: the if statement and the synthetic `_r = self._helper(...)` before it;
+    with `nested`: any statement with the helper call somewhere inside its expression (`if helper(v) != n:`,
+    `x = len(self._h())`) - the call is hoisted into the synthetic assignment and its place taken by the synthetic name"""
+    def __init__(self, ifnode, syn, nested=None):
         self.ifnode = ifnode
         self.syn = syn
+        self.nested = nested
+
+
+def _unconditional_calls(e, top=True):
+    """calls inside expression e that are evaluated whenever e is (not behind and/or, a conditional expression, a lambda or a
+    comprehension), outermost first; e itself is not reported"""
+    if isinstance(e, ast.Call):
+        if not top:
+            yield e
+        if isinstance(e.func, ast.Attribute):
+            yield from _unconditional_calls(e.func.value, False)
+        for a in e.args:
+            yield from _unconditional_calls(a, False)
+        for k in e.keywords:
+            yield from _unconditional_calls(k.value, False)
+    elif isinstance(e, ast.Compare):
+        yield from _unconditional_calls(e.left, False)
+        yield from _unconditional_calls(e.comparators[0], False)
+    elif isinstance(e, ast.UnaryOp):
+        yield from _unconditional_calls(e.operand, False)
+    elif isinstance(e, ast.BinOp):
+        yield from _unconditional_calls(e.left, False)
+        yield from _unconditional_calls(e.right, False)
+    elif isinstance(e, (ast.Attribute, ast.Starred)):
+        yield from _unconditional_calls(e.value, False)
+    elif isinstance(e, ast.Subscript):
+        yield from _unconditional_calls(e.value, False)
+        yield from _unconditional_calls(e.slice, False)
+    elif isinstance(e, ast.BoolOp):
+        yield from _unconditional_calls(e.values[0], False)
+    elif isinstance(e, (ast.Tuple, ast.List)):
+        for x in e.elts:
+            yield from _unconditional_calls(x, False)
 
 
 def _clone_ast(node):
@@ -315,6 +364,58 @@ def _always_returns(block):
     if isinstance(last, ast.Try) and not last.finalbody:
         return _always_returns(last.body + last.orelse) and all(_always_returns(h.body) for h in last.handlers)
     return False
+
+
+def _once_block(block, ost):
+    """fallback of _eliminate_returns for shapes that would need statements to be duplicated: the helper body inside a
+    synthetic `while True:` that every path leaves by `break` - `return v` reads `target = v; break`.  The control flow graph
+    of that form is exact (the loop test is constant, no path reaches the loop head again).  None when a return sits inside a
+    loop of the helper (a break would only leave that loop) or inside a try with a finally clause."""
+    def rep(ret):
+        v = ret.value
+        if isinstance(ost, ast.Assign):
+            a = ast.Assign(targets=_clone_ast(ost.targets), value=v if v is not None else ast.Constant(value=None), type_comment=None)
+            return [ast.fix_missing_locations(ast.copy_location(a, ret))]
+        if v is None or isinstance(v, (ast.Constant, ast.Name)):
+            return []
+        return [ast.copy_location(ast.Expr(value=v), ret)]
+
+    class Fail(Exception):
+        pass
+
+    def tr(stmts):
+        out = []
+        for s in stmts:
+            if isinstance(s, ast.Return):
+                out.extend(rep(s))
+                out.append(ast.copy_location(ast.Break(), s))
+                continue
+            if isinstance(s, FUNC_TYPES + (ast.ClassDef,)) or not _has_return([s]):
+                out.append(s)
+                continue
+            if isinstance(s, (ast.For, ast.AsyncFor, ast.While)) or (isinstance(s, ast.Try) and s.finalbody) or isinstance(s, ast.Match if hasattr(ast, 'Match') else ()):
+                raise Fail()
+            for field in ('body', 'orelse'):
+                sub = getattr(s, field, None)
+                if isinstance(sub, list) and sub and isinstance(sub[0], ast.stmt):
+                    setattr(s, field, tr(sub))
+            for h in getattr(s, 'handlers', []):
+                h.body = tr(h.body)
+            out.append(s)
+        return out
+    try:
+        body = tr(block)
+    except Fail:
+        return None
+    if not _always_returns(block) or True:
+        # falling off the end of the helper returns None
+        if not (body and isinstance(body[-1], (ast.Break, ast.Raise))):
+            last = ast.copy_location(ast.Return(value=None), block[-1])
+            body.extend(rep(last))
+            body.append(ast.copy_location(ast.Break(), block[-1]))
+    w = ast.While(test=ast.Constant(value=True), body=body, orelse=[])
+    w.synthetic_once = True
+    return [ast.fix_missing_locations(ast.copy_location(w, block[0]))]
 
 
 def _eliminate_returns(block, ost, at_end=True):
@@ -423,6 +524,8 @@ class Model:
         self.inlined = {}       # qualname of the caller -> [qualname of the expanded helper]
         if not os.environ.get('VERIF_NO_INLINE'):
             self._inline_helpers()
+            if not os.environ.get('VERIF_NO_TABLES'):
+                self._normalise_tables()
 
     # -- single-use private helper methods are analysed in place
     def _inline_helpers(self):
@@ -448,15 +551,118 @@ class Model:
         for rnd in range(2):
             changed = False
             for fi in list(self.functions.values()):
-                if fi.cls is None or fi.parent is not None:
+                if fi.parent is not None:
                     continue
                 cands = self._inline_candidates(fi, uses, known)
-                exprs = self._inline_expr_candidates(fi, uses, known, {id(c[1]) for c in cands})
+                exprs = self._inline_expr_candidates(fi, uses, known, {id(c[1]) for c in cands}) if fi.cls is not None else []
                 if cands or exprs:
                     self._expand(fi, cands, exprs)
                     changed = True
             if not changed:
                 break
+
+    # -- table driven code reads like the spelled out form
+    def _normalise_tables(self):
+        """in methods that were expanded or that index a class level constant table: `self._TABLE['key']` (a dict literal of the
+        class with constant keys) reads as the value it denotes, `a, b = (x, y)` as two assignments, a local bound exactly once
+        to a string constant or a class name is read through, and `getattr(obj, 'name')` reads `obj.name` - so that
+        `attr, errcls = self._KINDS['parameter']; getattr(mobj, attr).get(n)` is analysed as `mobj.parameters.get(n)`"""
+        for fi in list(self.functions.values()):
+            if fi.parent is not None:
+                continue
+
+            def table_value(n, fi=fi):
+                if fi.cls is None:
+                    return None
+                if isinstance(n, ast.Subscript) and isinstance(n.ctx, ast.Load) and isinstance(n.slice, ast.Constant) and isinstance(n.value, ast.Attribute) \
+                        and isinstance(n.value.value, ast.Name) and n.value.attr.isupper():
+                    owner = fi.cls.qualname if n.value.value.id in ('self', 'cls') else self.resolve_name(fi.module, n.value.value.id)
+                    if owner in self.classes:
+                        ci, val = self.class_attr(owner, n.value.attr)
+                        if isinstance(val, ast.Dict) and all(isinstance(k, ast.Constant) for k in val.keys):
+                            for k, v in zip(val.keys, val.values):
+                                if k.value == n.slice.value and type(k.value) is type(n.slice.value):
+                                    return v
+                return None
+            has_table = any(table_value(n) is not None for n in ast.walk(fi.node))
+            if not has_table and fi.qualname not in self.inlined:
+                continue
+            if fi.qualname not in self.inlined:
+                self._expand(fi, [], [])       # a private copy of the tree
+            root = fi.node
+
+            class _Tab(ast.NodeTransformer):
+                def visit_Subscript(self, node):
+                    self.generic_visit(node)
+                    v = table_value(node)
+                    return ast.copy_location(_clone_ast(v), node) if v is not None else node
+            if has_table:
+                _Tab().visit(root)
+
+            def split(lst):
+                out = []
+                for st in lst:
+                    for field in ('body', 'orelse', 'finalbody'):
+                        sub = getattr(st, field, None)
+                        if isinstance(sub, list) and sub and isinstance(sub[0], ast.stmt) and not isinstance(st, FUNC_TYPES + (ast.ClassDef,)):
+                            setattr(st, field, split(sub))
+                    for h in getattr(st, 'handlers', []):
+                        h.body = split(h.body)
+                    if isinstance(st, ast.Assign) and len(st.targets) == 1 and isinstance(st.targets[0], ast.Tuple) and isinstance(st.value, ast.Tuple) \
+                            and len(st.targets[0].elts) == len(st.value.elts) and all(isinstance(t, ast.Name) for t in st.targets[0].elts) \
+                            and not any(isinstance(v, ast.Starred) for v in st.value.elts):
+                        tnames = [t.id for t in st.targets[0].elts]
+                        safe = all(not any(isinstance(x, ast.Name) and x.id in tnames and not (x is v and x.id == tnames[i])
+                                           for x in ast.walk(v)) for i, v in enumerate(st.value.elts))
+                        if safe:
+                            for t, v in zip(st.targets[0].elts, st.value.elts):
+                                if isinstance(v, ast.Name) and v.id == t.id:
+                                    continue
+                                out.append(ast.fix_missing_locations(ast.copy_location(ast.Assign(targets=[t], value=v, type_comment=None), st)))
+                            continue
+                    out.append(st)
+                return out
+            root.body = split(root.body)
+            # locals bound exactly once to a string constant / a class name are read through
+            params = {a.arg for a in root.args.posonlyargs + root.args.args + root.args.kwonlyargs} | \
+                {a.arg for a in (root.args.vararg, root.args.kwarg) if a}
+            stores = {}
+            for n in walk_local(root):
+                if isinstance(n, ast.Name) and isinstance(n.ctx, (ast.Store, ast.Del)):
+                    stores[n.id] = stores.get(n.id, 0) + 1
+            consts = {}
+            for n in walk_local(root):
+                if isinstance(n, ast.Assign) and len(n.targets) == 1 and isinstance(n.targets[0], ast.Name):
+                    t = n.targets[0].id
+                    if stores.get(t) == 1 and t not in params and not isinstance(getattr(n, 'parent', None), (ast.For, ast.While)):
+                        if isinstance(n.value, ast.Constant) and isinstance(n.value.value, str):
+                            consts[t] = n.value
+                        elif isinstance(n.value, ast.Name) and self.resolve_name(fi.module, n.value.id) in self.classes and n.value.id not in stores:
+                            consts[t] = n.value
+            if consts:
+                class _Prop(ast.NodeTransformer):
+                    def visit_Name(self, node):
+                        if isinstance(node.ctx, ast.Load) and node.id in consts:
+                            return ast.copy_location(_clone_ast(consts[node.id]), node)
+                        return node
+
+                    def visit_FunctionDef(self, node):
+                        return node if node is not root else self.generic_visit(node)
+                    visit_Lambda = visit_AsyncFunctionDef = visit_FunctionDef
+                _Prop().visit(root)
+
+            class _Get(ast.NodeTransformer):
+                def visit_Call(self, node):
+                    self.generic_visit(node)
+                    if isinstance(node.func, ast.Name) and node.func.id == 'getattr' and len(node.args) == 2 and not node.keywords \
+                            and isinstance(node.args[1], ast.Constant) and isinstance(node.args[1].value, str) and node.args[1].value.isidentifier():
+                        return ast.copy_location(ast.Attribute(value=node.args[0], attr=node.args[1].value, ctx=ast.Load()), node)
+                    return node
+            _Get().visit(root)
+            ast.fix_missing_locations(root)
+            par = getattr(root, 'parent', None)
+            set_parents(root)
+            root.parent = par
 
     def is_inlined(self, fi):
         """fi is a single-use helper whose body is analysed in place of its (only) call"""
@@ -464,7 +670,7 @@ class Model:
 
     def _helper_for(self, fi, call):
         f = call.func
-        if not (isinstance(f, ast.Attribute) and dotted(f.value) == 'self'):
+        if not (isinstance(f, ast.Attribute) and dotted(f.value) == 'self') or fi.cls is None:
             return None
         for q in self.mro(fi.cls.qualname) + self.subclasses(fi.cls.qualname):
             ci = self.classes.get(q)
@@ -481,7 +687,7 @@ class Model:
                 continue
             f = call.func
             if not (isinstance(f, ast.Attribute) and dotted(f.value) == 'self' and f.attr.startswith('_') and not f.attr.endswith('__')
-                    and 1 <= uses.get(f.attr, 0) <= MAX_HELPER_USES + 2):
+                    and 1 <= uses.get(f.attr, 0) <= MAX_FORMULA_USES):
                 continue
             if f.attr in known or f.attr.lstrip('_') in known:
                 continue
@@ -498,7 +704,12 @@ class Model:
                 continue
             # only thin wrappers around another method of the object (`return len(self._getMessage(MAX_PORT))`): a helper that
             # builds something itself is a unit the rules may look for by its role
-            if not any(isinstance(x, ast.Call) and isinstance(x.func, ast.Attribute) and dotted(x.func.value) == 'self' for x in ast.walk(body[0].value)):
+            thin = any(isinstance(x, ast.Call) and isinstance(x.func, ast.Attribute) and dotted(x.func.value) == 'self' for x in ast.walk(body[0].value))
+            # ... and formulas over the parameters and attributes (`return int(round(value / self.scale))`), which may be shared widely
+            formula = all(isinstance(x.func, ast.Name) and x.func.id in _FORMULA_FUNCS for x in ast.walk(body[0].value) if isinstance(x, ast.Call)) \
+                and not any(isinstance(x, (ast.Lambda, ast.ListComp, ast.SetComp, ast.DictComp, ast.GeneratorExp, ast.JoinedStr, ast.Dict, ast.Await, ast.Yield))
+                            for x in ast.walk(body[0].value))
+            if not (formula or (thin and uses.get(f.attr, 0) <= MAX_HELPER_USES + 2)):
                 continue
             binding = self._bind(h.node, call)
             if binding is None or not all(isinstance(a, (ast.Name, ast.Constant)) or (isinstance(a, ast.Attribute) and dotted(a)) for a in binding.values()):
@@ -508,20 +719,31 @@ class Model:
 
     def _inline_candidates(self, fi, uses, known):
         res = []
+        sites = []
+
+        def synthetic(call, st):
+            syn = ast.Assign(targets=[ast.Name(id='_r_' + (getattr(call.func, 'attr', None) or getattr(call.func, 'id', 'h')).lstrip('_'), ctx=ast.Store())], value=call, type_comment=None)
+            return ast.fix_missing_locations(ast.copy_location(syn, st))
         for st in ast.walk(fi.node):
             if isinstance(st, ast.Expr) and isinstance(st.value, ast.Call):
-                call = st.value
+                sites.append((st, st.value))
             elif isinstance(st, (ast.Assign, ast.Return)) and isinstance(st.value, ast.Call):
-                call = st.value
+                sites.append((st, st.value))
             elif isinstance(st, ast.If) and (isinstance(st.test, ast.Call) or (
                     isinstance(st.test, ast.BoolOp) and isinstance(st.test.op, ast.And) and isinstance(st.test.values[-1], ast.Call) and not st.orelse)):
                 # `if self._helper(...):` reads as `_r = self._helper(...)` followed by `if _r:`;
                 # `if a and self._helper(...): B` (no else) as `if a:` + `_r = self._helper(...)` + `if _r: B`
                 call = st.test if isinstance(st.test, ast.Call) else st.test.values[-1]
-                syn = ast.Assign(targets=[ast.Name(id='_r_' + (getattr(call.func, 'attr', None) or getattr(call.func, 'id', 'h')).lstrip('_'), ctx=ast.Store())], value=call, type_comment=None)
-                ast.fix_missing_locations(ast.copy_location(syn, st))
-                st = _IfCall(st, syn)
-            else:
+                sites.append((_IfCall(st, synthetic(call, st)), call))
+            if isinstance(st, (ast.If, ast.Assign, ast.Return, ast.Expr)) and not os.environ.get('VERIF_NO_HOIST'):
+                # the helper call somewhere inside the statement's expression: hoisted in front of the statement
+                expr = st.test if isinstance(st, ast.If) else st.value
+                if expr is not None:
+                    for call in _unconditional_calls(expr):
+                        sites.append((_IfCall(st, synthetic(call, st), nested=call), call))
+        taken_stmts = set()
+        for st, call in sites:
+            if id(st.ifnode if isinstance(st, _IfCall) else st) in taken_stmts:
                 continue
             f = call.func
             modfunc = None
@@ -568,11 +790,15 @@ class Model:
                 # early returns: `return self._helper()` keeps every return as it is; elsewhere the guard clauses are turned
                 # into if/else nesting (`if c: return` + rest  ->  `if c: pass else: rest`) when that is possible without
                 # duplicating statements
+                orig_body = body
                 body = _clone_ast(body)
+                once = not os.environ.get('VERIF_NO_ONCE')
                 if isinstance(st, _IfCall):
                     if not _always_returns(body):
                         continue
                     body = _eliminate_returns(body, st.syn)
+                    if body is None and once:
+                        body = _once_block(_clone_ast(orig_body), st.syn)
                     if body is None:
                         continue
                 elif isinstance(st, ast.Return):
@@ -582,11 +808,15 @@ class Model:
                     if isinstance(st, ast.Assign) and not _always_returns(body):
                         continue
                     body = _eliminate_returns(body, st)
+                    if body is None and once:
+                        body = _once_block(_clone_ast(orig_body), st)
                     if body is None:
                         continue
                 res.append((st, call, h, binding, body, True))
+                taken_stmts.add(id(st.ifnode if isinstance(st, _IfCall) else st))
                 continue
             res.append((st, call, h, binding, body, False))
+            taken_stmts.add(id(st.ifnode if isinstance(st, _IfCall) else st))
         return res
 
     @staticmethod
@@ -634,7 +864,8 @@ class Model:
                 return [clone(x) for x in node]
             return node
 
-        todo = {id(st): ((st.ifnode if isinstance(st, _IfCall) else st), call, h, binding, body, pre, (st.syn if isinstance(st, _IfCall) else None))
+        todo = {id(st): ((st.ifnode if isinstance(st, _IfCall) else st), call, h, binding, body, pre, (st.syn if isinstance(st, _IfCall) else None),
+                         (st.nested if isinstance(st, _IfCall) else None))
                 for st, call, h, binding, body, pre in cands}
         new_root = clone(fi.node)
         if exprs:
@@ -673,7 +904,7 @@ class Model:
                         c.body = rewrite(c.body)
                     out.append(st)
                     continue
-                ifst, call, helper, binding, body, pre, syn = orig
+                ifst, call, helper, binding, body, pre, syn, nested = orig
                 ost = syn if syn is not None else ifst
                 emitted = []
                 stmts = [clone(x) for x in body]
@@ -681,7 +912,8 @@ class Model:
                 # the copy (`datatype.min` reads `self.min` again); the others are bound by an assignment in front
                 stored = {n.id for x in body for n in ast.walk(x) if isinstance(n, ast.Name) and isinstance(n.ctx, (ast.Store, ast.Del))}
                 subst = {prm: arg for prm, arg in binding.items()
-                         if prm not in stored and (isinstance(arg, (ast.Name, ast.Constant)) or (isinstance(arg, ast.Attribute) and dotted(arg)))}
+                         if prm not in stored and (isinstance(arg, (ast.Name, ast.Constant)) or (isinstance(arg, ast.Attribute) and dotted(arg))
+                                                   or _pure_expr(arg))}
                 if subst:
                     class _Sub(ast.NodeTransformer):
                         def visit_Name(self, node):
@@ -724,8 +956,29 @@ class Model:
                     out.extend(emitted)
                 else:
                     # the if statement itself, now testing the helper's result
-                    flag = ast.copy_location(ast.Name(id=syn.targets[0].id, ctx=ast.Load()), st.test)
-                    if isinstance(st.test, ast.BoolOp):
+                    flag = ast.copy_location(ast.Name(id=syn.targets[0].id, ctx=ast.Load()), st.test if isinstance(st, ast.If) else st)
+                    if not pre and len(emitted) == 1 and isinstance(emitted[0], ast.Assign) and isinstance(emitted[0].targets[0], ast.Name) \
+                            and emitted[0].targets[0].id == syn.targets[0].id and (_is_predicate(emitted[0].value) or nested is not None):
+                        # a predicate helper (`return not low <= value <= high`): the if statement tests its expression itself
+                        flag = emitted[0].value
+                        emitted = []
+                    if nested is not None:
+                        target = mapping.get(id(nested))
+
+                        class _Put(ast.NodeTransformer):
+                            def visit_Call(self, node):
+                                if node is target:
+                                    return flag
+                                return self.generic_visit(node)
+                        if isinstance(st, ast.If):
+                            st.test = _Put().visit(st.test)
+                            st.body = rewrite(st.body)
+                            st.orelse = rewrite(st.orelse)
+                        else:
+                            st.value = _Put().visit(st.value)
+                        out.extend(emitted)
+                        out.append(st)
+                    elif isinstance(st.test, ast.BoolOp):
                         conds = st.test.values[:-1]
                         inner = ast.copy_location(ast.If(test=flag, body=rewrite(st.body), orelse=[]), st)
                         st.test = conds[0] if len(conds) == 1 else ast.copy_location(ast.BoolOp(op=ast.And(), values=conds), st.test)
